@@ -82,3 +82,79 @@ func (in *Interp) initStubs2() {
 		return in.timeVal(tb.Bin(OpAdd, in.intTerm(a[1]), tb.Const(1<<41, 64))), stDone
 	}
 }
+
+// summarize evaluates a side-effect-free harness function (name prefix zzPure) on symbolic arguments by exploring
+// all of its internal paths and merging the results into one ite value, so that the caller's path does not fork.
+func (in *Interp) summarize(th *Thread, fv FuncV, args []Value) Value {
+	savedPC, savedList := in.pc, len(in.pcList)
+	savedDec, savedPrefix := in.dec, in.prefix
+	savedSteps := in.loopBoundOverride
+	type res struct {
+		cond *Term
+		v    Value
+	}
+	var results []res
+	depth := len(th.frames)
+	var local []int
+	for iter := 0; ; iter++ {
+		if iter > 4096 {
+			panic(in.unsupported("zzPure function has more than 4096 paths"))
+		}
+		in.pc = savedPC
+		in.pcList = in.pcList[:savedList]
+		in.dec = nil
+		in.prefix = local
+		var v Value
+		ok := func() (ok bool) {
+			defer func() {
+				if r := recover(); r != nil {
+					if ab, isAb := r.(abort); isAb && ab.kind == abInfeasible {
+						th.frames = th.frames[:depth]
+						ok = false
+						return
+					}
+					panic(r)
+				}
+			}()
+			v = in.callSync(th, fv, args)
+			return true
+		}()
+		if ok {
+			cond := in.tb.T
+			for _, c := range in.pcList[savedList:] {
+				cond = in.tb.BAnd(cond, c)
+			}
+			results = append(results, res{cond, v})
+		}
+		// next local prefix
+		i := len(in.dec) - 1
+		for i >= 0 && in.dec[i].Taken+1 >= in.dec[i].N {
+			i--
+		}
+		if i < 0 {
+			break
+		}
+		nl := make([]int, i+1)
+		for j := 0; j < i; j++ {
+			nl[j] = in.dec[j].Taken
+		}
+		nl[i] = in.dec[i].Taken + 1
+		local = nl
+	}
+	in.pc = savedPC
+	in.pcList = in.pcList[:savedList]
+	in.dec, in.prefix = savedDec, savedPrefix
+	in.loopBoundOverride = savedSteps
+	if len(results) == 0 {
+		panic(abort{abInfeasible, "zzPure function has no feasible path"})
+	}
+	merged := results[len(results)-1].v
+	for i := len(results) - 2; i >= 0; i-- {
+		m, ok := in.iteValue(results[i].cond, results[i].v, merged)
+		if !ok {
+			panic(in.unsupported("zzPure function result cannot be merged"))
+		}
+		merged = m
+	}
+	return merged
+}
